@@ -1,3 +1,144 @@
+//! Engine SM: explicit-state breadth-first search over a model whose transition function
+//! executes the real component (DESIGN.md §4).  Level-synchronous: every level is expanded in
+//! parallel, deduplicated sequentially in a fixed order, so state and transition counts are
+//! reproducible and the first discovery of a violation is a shortest one.
+
+pub mod snapshot;
+
 use crate::common::*;
+use rayon::prelude::*;
 use serde_json::Value;
-pub fn replay(_prop: &str, _rp: &Value) -> Vec<Violation> { vec![] }
+use std::collections::HashSet;
+
+pub trait SmModel: Sync {
+    type State: Clone + Send + Sync;
+    type Action: Clone + Send + Sync;
+
+    fn name(&self) -> String;
+    fn init(&self) -> Vec<Self::State>;
+    /// enabled actions of the slice in state `s` (none for a diverged state)
+    fn actions(&self, s: &Self::State, out: &mut Vec<Self::Action>);
+    /// Execute `a` on the real object (rebuilt from the history in `s`) in lock-step with the
+    /// reference; violations go to `acc`.  `None` = outside the population bounds.
+    fn step(&self, s: &Self::State, a: &Self::Action, acc: &mut Acc) -> Option<Self::State>;
+    /// deduplication key: reference state + canonical snapshot of the real object
+    fn key(&self, s: &Self::State) -> u128;
+    /// work done once per unique state (drain, differential replays, witnesses)
+    fn on_unique(&self, s: &Self::State, acc: &mut Acc);
+    fn describe(&self, s: &Self::State) -> Value;
+}
+
+pub struct SmResult {
+    pub acc: Acc,
+    pub states: u64,
+    pub transitions: u64,
+    pub depth_completed: usize,
+    pub per_level: Vec<(usize, u64, u64)>,
+    pub capped: Option<String>,
+}
+
+pub struct Limits {
+    pub max_depth: usize,
+    pub max_states: u64,
+    pub budget_s: f64,
+}
+
+pub fn explore<M: SmModel>(m: &M, lim: &Limits, start: std::time::Instant) -> SmResult {
+    let mut seen: HashSet<u128> = HashSet::new();
+    let mut acc = Acc::default();
+    let mut frontier: Vec<M::State> = Vec::new();
+    for s in m.init() {
+        if seen.insert(m.key(&s)) {
+            frontier.push(s);
+        }
+    }
+    let mut states = frontier.len() as u64;
+    let mut transitions = 0u64;
+    let mut per_level = vec![(0usize, states, 0u64)];
+    let mut capped = None;
+    let mut depth_completed = 0usize;
+    let mut last_level_s = 0.0f64;
+    let mut growth = 4.0f64;
+    // unique-state work for the initial states
+    let a0 = frontier.par_iter().fold(Acc::default, |mut a, s| { m.on_unique(s, &mut a); a }).reduce(Acc::default, |a, b| a.merge(b));
+    acc = acc.merge(a0);
+    for depth in 1..=lim.max_depth {
+        if frontier.is_empty() {
+            depth_completed = depth - 1;
+            break;
+        }
+        // a level is atomic (it must be completed for the "levels <= d are complete" claim), so the
+        // budget is applied predictively: estimated cost of the next level = last level x growth
+        let elapsed = start.elapsed().as_secs_f64();
+        let predicted = last_level_s * growth.max(2.0);
+        if elapsed > lim.budget_s || (depth > 3 && elapsed + predicted > lim.budget_s) {
+            capped = Some(format!("wall budget {:.0}s: level {depth} not started (elapsed {:.1}s, predicted {:.1}s); levels < {depth} are complete", lim.budget_s, elapsed, predicted));
+            depth_completed = depth - 1;
+            break;
+        }
+        let level_start = std::time::Instant::now();
+        // expand the level in parallel; results stay in frontier order
+        let expanded: Vec<(Vec<(u128, M::State)>, Acc, u64)> = frontier
+            .par_iter()
+            .map(|s| {
+                let mut local = Acc::default();
+                let mut acts = Vec::new();
+                m.actions(s, &mut acts);
+                let mut succ = Vec::with_capacity(acts.len());
+                let mut n = 0u64;
+                for a in &acts {
+                    n += 1;
+                    if let Some(ns) = m.step(s, a, &mut local) {
+                        let k = m.key(&ns);
+                        succ.push((k, ns));
+                    }
+                }
+                (succ, local, n)
+            })
+            .collect();
+        let mut next: Vec<M::State> = Vec::new();
+        for (succ, local, n) in expanded {
+            transitions += n;
+            acc = acc.merge(local);
+            for (k, ns) in succ {
+                if seen.insert(k) {
+                    next.push(ns);
+                }
+            }
+        }
+        states += next.len() as u64;
+        per_level.push((depth, next.len() as u64, transitions));
+        depth_completed = depth;
+        // per-unique-state work
+        let au = next.par_iter().fold(Acc::default, |mut a, s| { m.on_unique(s, &mut a); a }).reduce(Acc::default, |a, b| a.merge(b));
+        acc = acc.merge(au);
+        let this = level_start.elapsed().as_secs_f64();
+        if last_level_s > 0.01 {
+            growth = this / last_level_s;
+        }
+        last_level_s = this;
+        if states > lim.max_states {
+            capped = Some(format!("state cap {} exceeded after level {depth}; levels <= {depth} are complete", lim.max_states));
+            frontier = next;
+            break;
+        }
+        frontier = next;
+    }
+    if acc.samples.len() < 3 {
+        for s in frontier.iter().take(3) {
+            acc.sample(m.describe(s));
+        }
+    }
+    SmResult { acc, states, transitions, depth_completed, per_level, capped }
+}
+
+pub fn replay(prop: &str, rp: &Value) -> Vec<Violation> {
+    match rp.get("model").and_then(|m| m.as_str()) {
+        Some("agent") => crate::agent::model::replay(prop, rp),
+        Some("agent-schedule") => crate::agent::schedule::replay(prop, rp),
+        other => {
+            eprintln!("MACHINERY-FAILURE: replay names unknown model {other:?}");
+            std::process::exit(2)
+        }
+    }
+}
